@@ -172,7 +172,7 @@ Definition mark_for_recovery (c : link) : link := reset_core c None (cg c).
 Definition reset_for_reconnect (c : link) : link := reset_core c None cong0.
 (** REG3: clear_pre_registration_state + the stamps process_uplink_packet applies *)
 Definition reg3_clear (c : link) (now : Z) : link :=
-  {| cid := cid c; connected := true; window := window c; in_flight := 0; log := [];
+  {| cid := cid c; connected := true; window := WINDOW_DEFAULT; in_flight := 0; log := [];
      hwm := i32_min; last_recv := Some now; proof := proof c; cg := cong0; ovf := ovf c |}.
 Definition set_conn (c : link) (b : bool) (lr : option Z) : link :=
   {| cid := cid c; connected := b; window := window c; in_flight := in_flight c; log := log c;
